@@ -80,7 +80,7 @@ def boundary_values(ty):
 def value_set(ty, rnd):
     """(lo, hi, default, inside values, outside values) as bit patterns"""
     if ty in (U16, U32, U64):
-        lo, hi = rnd.choice([(10, 20), (1, 0xFFFE), (0x100, 0x1FF), (2, 2)])
+        lo, hi = rnd.choice([(10, 20), (1, 0xFFFE), (0x100, 0x1FF), (2, 2), (0, 0), (0xFFFF, 0xFFFF), (0, 0xFFFF), (0x7FFF, 0x8000)])
         if ty != U16 and rnd.random() < 0.5:
             sh = BITS[ty] - 16
             lo, hi = (lo << sh), (hi << sh) | 0xFF00
@@ -88,13 +88,14 @@ def value_set(ty, rnd):
         outs = [lo - 1, hi + 1, (1 << BITS[ty]) - 1, 0] if lo > 0 else [hi + 1]
         return lo, hi, rnd.choice([lo, hi]), ins, [o & ((1 << BITS[ty]) - 1) for o in outs]
     if ty in (S16, S32, S64):
-        lo, hi = rnd.choice([(-2, 3), (-100, -50), (5, 1000), (0, 0)])
+        top = (1 << (BITS[ty] - 1)) - 1
+        lo, hi = rnd.choice([(-2, 3), (-100, -50), (5, 1000), (0, 0), (-top - 1, -top), (top - 1, top), (-top - 1, top), (-1, 0), (-1, -1)])
         m = (1 << BITS[ty]) - 1
         ins = [lo & m, hi & m, ((lo + hi) // 2) & m]
         outs = [(lo - 1) & m, (hi + 1) & m, 1 << (BITS[ty] - 1), (1 << (BITS[ty] - 1)) - 1]
         return lo & m, hi & m, lo & m, ins, outs
     f = f32 if ty == F32 else f64
-    lo, hi = rnd.choice([(-1.0, 2.5), (0.5, 0.75), (-8.0, -2.0), (0.0, 1.0)])
+    lo, hi = rnd.choice([(-1.0, 2.5), (0.5, 0.75), (-8.0, -2.0), (0.0, 1.0), (-0.0, 0.0), (1.0, 1.0), (-1e30, 1e30)])
     ins = [f(lo), f(hi), f((lo + hi) / 2)]
     outs = [f(lo - 1.0), f(hi + 3.0)]
     return f(lo), f(hi), f(lo), ins, outs
